@@ -31,10 +31,12 @@ SortKeys(S) == LET idx == {Rank(k) : k \in S}
 Fields == {"comment", "source", "private", "announce", "url-list", "httpseeds"}
 InfoFields == {"comment", "source", "private"}
 \* request: field -> "u" (unnamed) | "c" (clear) | "s1" (set, one value) | "s2" (set, list of two)
+\*                   | "k" (set to the - first - value the field holds already: an edit that "changes nothing"
+\*                          for a text field, and one that drops every further value of a list-valued field)
 ReqVals(f) == IF f = "private" THEN {"u", "c", "s1"}
-              ELSE IF f \in {"comment", "source"} THEN {"u", "c", "s1"}
-              ELSE {"u", "c", "s1", "s2"}
-Requests == {r \in [Fields -> {"u", "c", "s1", "s2"}] : \A f \in Fields : r[f] \in ReqVals(f)}
+              ELSE IF f \in {"comment", "source"} THEN {"u", "c", "s1", "k"}
+              ELSE {"u", "c", "s1", "s2", "k"}
+Requests == {r \in [Fields -> {"u", "c", "s1", "s2", "k"}] : \A f \in Fields : r[f] \in ReqVals(f)}
 \* the command line cannot clear list-valued fields or the private flag
 CliOK(r) == r["private"] # "c" /\ \A f \in {"announce", "url-list", "httpseeds"} : r[f] # "c"
 
@@ -44,6 +46,7 @@ Absent == <<-1, "absent">>
 ApplyEdit(vals, r, step) ==
     [f \in Fields |-> IF r[f] = "u" THEN vals[f]
                       ELSE IF r[f] = "c" THEN Absent
+                      ELSE IF r[f] = "k" THEN <<vals[f][1], "s1">>      \* the first value written back then, alone
                       ELSE <<step, r[f]>>]
 InfoTouched(r) == \E f \in InfoFields : r[f] # "u"
 
@@ -97,9 +100,10 @@ Finish(seq) == IF Variant = "code" THEN seq ELSE SortKeys(SeqToSet(seq))
 Edit(entry, r) ==
     /\ version # 0 /\ nedits < MaxEdits
     /\ entry = "cli" => CliOK(r)
+    /\ \A f \in Fields : r[f] = "k" => vals[f] # Absent          \* "the value it holds" needs one
     /\ LET e == Effective(entry, r)
            cleared == {f \in Fields : e[f] = "c"}
-           setf == {f \in Fields : e[f] \in {"s1", "s2"}}
+           setf == {f \in Fields : e[f] \in {"s1", "s2", "k"}}
            \* filter_empty: `if key in meta: del meta[key] elif key in info: del info[key]`
            top1 == Remove(top, cleared)
            info1 == Remove(info, {f \in cleared : f \notin SeqToSet(top)})
